@@ -74,6 +74,12 @@ def build_request(req: dict[str, Any], variant: int):
                 y = jnp.arange(6.0).reshape(2, 3)
             if j == nout - 1 and j >= 1 and req["outKind"] == "duplicate":
                 y = outs[j - 1]          # the last two leaves are one value
+            if j >= 1 and req["outKind"] == "all_one_value":
+                first = outs[0]          # every leaf is the first one: directly, or after a round trip the optimizer folds
+                if (variant % 2 == 0 or j % 2 == 0) and first.ndim == 2:
+                    y = first.T.T if j % 2 else jnp.swapaxes(jnp.swapaxes(first, 0, 1), 0, 1)
+                else:
+                    y = first
             if j == nout - 1 and j >= 1 and req["outKind"] == "folds_to_duplicate":
                 prev = outs[j - 1]       # a round trip the optimizer folds back onto the previous leaf
                 if variant % 3 == 0:
